@@ -339,6 +339,27 @@ func e19Differences(c *Ctx, v ssa.Value, at ssa.Instruction) []e19Diff {
 			for _, ed := range y.Edges {
 				walk(ed, at, d+1, up)
 			}
+		case *ssa.UnOp:
+			// a local variable that lives in a cell because a closure captures it
+			// (fieldLen := a - b; … func() { make(T, fieldLen) }): its assigned values
+			if y.Op != token.MUL {
+				return
+			}
+			cell := e19CellRoot(y.X)
+			if cell == nil {
+				return
+			}
+			vals, complete := core.StoresTo(cell)
+			if !complete {
+				return
+			}
+			for _, sv := range vals {
+				sat := at
+				if si, ok := sv.(ssa.Instruction); ok {
+					sat = si
+				}
+				walk(sv, sat, d+1, up)
+			}
 		case *ssa.Parameter:
 			_, idx := e19ParamIndex(y)
 			edges := c.P.RealCallers(y.Parent())
